@@ -246,6 +246,24 @@ func tapBubble(c *harness.Ctx) {
 		}
 		h := hist()
 		want := foldEvents(h, zkPath)
+		// The property speaks of the snapshot after the events, not of how soon after: an implementation may apply
+		// events it has received a little later (batching). A snapshot that is behind is given the same bounded
+		// quiet period as the end of the run to catch up before it counts as wrong; on code that applies every event
+		// as it arrives this loop is never entered.
+		for waited := time.Duration(0); r != want && waited < quiet; waited += time.Second {
+			if waited == 0 {
+				c.Probe("snapshot-behind-the-events-waited-for")
+			}
+			time.Sleep(time.Second)
+			synctest.Wait()
+			_, id, live = cl.VerifCurrent(svc, cluster)
+			r = renderLive(live)
+			if n := len(snaps); n == 0 || snaps[n-1].id != id {
+				snaps = append(snaps, seen{id, live, r})
+			}
+			h = hist()
+			want = foldEvents(h, zkPath)
+		}
 		if r != want {
 			c.Fail("C19", "fold-treecache", "fold-treecache", "%s: the snapshot is %q, the fold of the %d events TreeCache emitted so far is %q; stimuli=%v", when, r, len(h), want, desc)
 			return false
